@@ -728,3 +728,252 @@ def sparse_product_shape(ctx, rep, rule):
 
 
 _add("C03", sparse_product_shape, "C03.14")
+
+
+# ---------------------------------------------------------------- C14: kind guards of symbolic components
+
+# components that the two constructors accept as AnnotatedValue (their own
+# isinstance(.., (Integral, AnnotatedValue)) / (Register, AnnotatedValue) tests)
+KIND_GUARDED = {
+    "jaqalpaq.core.register.Register": ["size", "alias_slice.start", "alias_slice.stop", "alias_slice.step", "alias_from"],
+    "jaqalpaq.core.register.NamedQubit": ["alias_index", "alias_from"],
+}
+
+
+def kind_guards_own_component(ctx, rep, rule):
+    ix = ctx.ix
+    rep.rule(rule, "in the constructors of Register and NamedQubit, a guard `isinstance(X, AnnotatedValue) and X.kind not in (..)` that refuses a symbolic size, bound, index or source of the wrong kind reads the kind of X itself, refuses under `not in`, and allows INT (REGISTER for a source) besides NONE", floor=6)
+    n = 0
+    for cls in ("jaqalpaq.core.register.Register", "jaqalpaq.core.register.NamedQubit"):
+        init = ix.find_method(cls, "__init__")
+        if init is None:
+            continue
+        for b in ast.walk(init.node):
+            if not (isinstance(b, (ast.If,)) ):
+                continue
+            tests = []
+            t = b.test
+            if isinstance(t, ast.BoolOp) and isinstance(t.op, ast.And):
+                inst = [v for v in t.values if isinstance(v, ast.Call) and isinstance(v.func, ast.Name) and v.func.id == "isinstance" and len(v.args) == 2 and "AnnotatedValue" in ast.unparse(v.args[1]) and not isinstance(v.args[1], ast.Tuple)]
+                kinds = [v for v in t.values if isinstance(v, ast.Compare) and isinstance(v.left, ast.Attribute) and v.left.attr == "kind" and isinstance(v.ops[0], (ast.In, ast.NotIn))]
+                if inst and kinds:
+                    tests.append((inst[0].args[0], kinds[0], b))
+            elif isinstance(t, ast.Compare) and isinstance(t.left, ast.Attribute) and t.left.attr == "kind" and isinstance(t.ops[0], (ast.In, ast.NotIn)):
+                # nested form: `if isinstance(X, AnnotatedValue): if X.kind not in ..`
+                for et, taken in _enclosing_ifs(init.node, b):
+                    if taken and isinstance(et, ast.Call) and isinstance(et.func, ast.Name) and et.func.id == "isinstance" and "AnnotatedValue" in ast.unparse(et.args[1]) and not isinstance(et.args[1], ast.Tuple):
+                        tests.append((et.args[0], t, b))
+            for subj, kc, st in tests:
+                if not any(isinstance(r, ast.Raise) for r in st.body):
+                    continue
+                n += 1
+                comp = ast.unparse(subj)
+                cons = construct_of(init, f"kind-guard:{comp}")
+                read = ast.unparse(kc.left.value)
+                allowed = ast.unparse(kc.comparators[0])
+                want = "REGISTER" if comp.endswith("alias_from") else "INT"
+                if read != comp:
+                    rep.violation(rule, cons, f"`{ast.unparse(st.test)[:100]}` tests whether `{comp}` is symbolic and then reads the kind of `{read}`: a float parameter as this component is accepted when the other one is an integer parameter (and AttributeError when the other one is a literal)", f"{init.path}:{st.lineno}")
+                elif not isinstance(kc.ops[0], ast.NotIn):
+                    rep.violation(rule, cons, f"`{ast.unparse(kc)[:90]}` refuses the parameters of the RIGHT kind and accepts the others", f"{init.path}:{st.lineno}")
+                elif not (isinstance(kc.comparators[0], (ast.Tuple, ast.List, ast.Set)) and {e.attr if isinstance(e, ast.Attribute) else ast.unparse(e) for e in kc.comparators[0].elts} == {want, "NONE"}):
+                    rep.violation(rule, cons, f"`{ast.unparse(kc)[:90]}`: the allowed kinds for `{comp}` are not {want} and NONE", f"{init.path}:{st.lineno}")
+                else:
+                    rep.ok(rule, cons, f"`{comp}.kind not in {allowed}` raises", f"{init.path}:{st.lineno}")
+        # every component that the constructor accepts in symbolic form has a guard
+        have = {o.construct.rsplit("kind-guard:", 1)[1] for o in rep.obligations if o.rule == rule and "kind-guard:" in o.construct and init.name in o.construct and cls.rsplit(".", 1)[1] in o.construct}
+        for comp in KIND_GUARDED[cls]:
+            if comp not in have:
+                rep.violation(rule, construct_of(init, f"kind-guard:{comp}"), f"no guard on the kind of a symbolic `{comp}`: a macro parameter declared as a qubit or a float is accepted as {comp} of a {cls.rsplit('.', 1)[1]} and fails (or is silently truncated) when the macro is expanded", init.loc())
+    if n == 0:
+        rep.undecided(rule, "core.register:kind-guards", "no kind guard recognised")
+
+
+_add("C14", kind_guards_own_component, "C14.19")
+
+
+# ---------------------------------------------------------------- seed round 9
+
+def superseded_count_is_snapshot(ctx, rep, rule):
+    ix = ctx.ix
+    DS = "jaqalpaq.core.algorithm.walkers.DiscoverSubcircuits"
+    vb = _method(ix, DS, "visit_BlockStatement")
+    vg = _method(ix, DS, "visit_GateStatement")
+    rep.rule(rule, "the refusal `gates went into the entry trace before it was superseded` compares the trace's gate count with its value AT ENTRY of the body (a local read from the same field before the statements are visited), not with a constant: gates that precede the body are not the body's", floor=1)
+    cons = construct_of(vb, "superseded-count-snapshot")
+    counted = [a for a in ast.walk(vg.node) if isinstance(a, ast.AugAssign) and isinstance(a.target, ast.Attribute) and isinstance(a.op, ast.Add)]
+    field = counted[0].target.attr if counted else None
+    if field is None:
+        rep.undecided(rule, cons, "no gate counter (see the rule on superseded traces)", vb.loc())
+        return
+    loops = [n for n in iter_stmts(vb.body) if isinstance(n, ast.For)]
+    first_loop = min((l.lineno for l in loops), default=10**9)
+    hit = False
+    for r in ast.walk(vb.node):
+        if not isinstance(r, ast.Raise):
+            continue
+        for t, taken in _enclosing_ifs(vb.node, r):
+            for c in ast.walk(t):
+                if isinstance(c, ast.Compare) and len(c.ops) == 1 and any(isinstance(x, ast.Attribute) and x.attr == field for x in ast.walk(c)):
+                    hit = True
+                    sides = [c.left, c.comparators[0]]
+                    other = [s for s in sides if not any(isinstance(x, ast.Attribute) and x.attr == field for x in ast.walk(s))]
+                    snap = False
+                    for s in other:
+                        if isinstance(s, ast.Name):
+                            for st in iter_stmts(vb.body):
+                                if isinstance(st, ast.Assign) and st.lineno < first_loop and any(isinstance(tg, ast.Name) and tg.id == s.id for tg in st.targets) and any(isinstance(x, ast.Attribute) and x.attr == field for x in ast.walk(st.value)):
+                                    snap = True
+                    if snap and isinstance(c.ops[0], (ast.NotEq, ast.Gt)):
+                        rep.ok(rule, cons, f"`{ast.unparse(c)}`", f"{vb.path}:{c.lineno}")
+                    elif not other or any(isinstance(s, ast.Constant) for s in other):
+                        rep.violation(rule, cons, f"`{ast.unparse(c)}` counts every gate of the entry trace, also those written BEFORE the body: `prepare_all; Px q[0]; loop 3 {{ prepare_all; measure_all }}` (the first prepare_all and its gate are superseded, nothing follows a measure_all) is refused although each pass yields its readout", f"{vb.path}:{c.lineno}", witness="prepare_all; Px q[0]; loop 3 { prepare_all; Px q[0]; measure_all }")
+                    elif snap:
+                        rep.violation(rule, cons, f"`{ast.unparse(c)}` does not ask whether the count CHANGED in the body", f"{vb.path}:{c.lineno}")
+                    else:
+                        rep.undecided(rule, cons, f"`{ast.unparse(c)}`", f"{vb.path}:{c.lineno}")
+    if not hit:
+        rep.undecided(rule, cons, "no refusal reads the gate count", vb.loc())
+
+
+def parallel_refusal_order_free(ctx, rep, rule):
+    ix = ctx.ix
+    vb = _method(ix, "jaqalpaq.core.algorithm.walkers.DiscoverSubcircuits", "visit_BlockStatement")
+    rep.rule(rule, "the refusal of a parallel branch that changes the subcircuit state does not look at the branch's position: no enclosing test reads the loop variables, so the first branch is treated like the others", floor=1)
+    cons = construct_of(vb, "parallel-branches-position")
+    hit = False
+    for lp in ast.walk(vb.node):
+        if not isinstance(lp, ast.For):
+            continue
+        targets = {n.id for n in ast.walk(lp.target) if isinstance(n, ast.Name)}
+        for r in ast.walk(lp):
+            if isinstance(r, ast.Raise):
+                tests = [t for t, taken in _enclosing_ifs(vb.node, r)]
+                if not any("parallel" in ast.unparse(t) for t in tests):
+                    continue
+                hit = True
+                used = sorted({n.id for t in tests for n in ast.walk(t) if isinstance(n, ast.Name)} & targets)
+                if used:
+                    rep.violation(rule, cons, f"the refusal depends on the loop variable(s) {used}: `< prepare_all | I_Px q[0] >` is accepted while `< I_Px q[0] | prepare_all >` is refused -- acceptance depends on the order in which simultaneous branches are written", f"{vb.path}:{r.lineno}", witness="< prepare_all | I_Px q[0] >  vs  < I_Px q[0] | prepare_all >")
+                else:
+                    rep.ok(rule, cons, "no test above the refusal reads the loop variables", f"{vb.path}:{r.lineno}")
+    if not hit:
+        rep.undecided(rule, cons, "no refusal under a test of `parallel` inside the loop (see the rule on parallel branches)", vb.loc())
+
+
+def splice_kind_is_conjunct(ctx, rep, rule):
+    ix = ctx.ix
+    rep.rule(rule, "in macro expansion a block returned for a statement is spliced into its parent only under a test of which `child.parallel == parent.parallel` and `not child.subcircuit` are plain conjuncts (no alternative lets a block of the other kind dissolve)", floor=2)
+    for q in ("jaqalpaq.core.algorithm.expand_macros.MacroExpander", "jaqalpaq.core.algorithm.expand_macros.GateReplacer"):
+        m = _method(ix, q, "visit_BlockStatement")
+        cons = construct_of(m, "splice-conjuncts")
+        found = False
+        for st in ast.walk(m.node):
+            if isinstance(st, ast.If) and any(isinstance(c, ast.Call) and isinstance(c.func, ast.Attribute) and c.func.attr == "extend" for b in st.body for c in ast.walk(b)):
+                found = True
+                same_kind = lambda e: isinstance(e, ast.Compare) and len(e.ops) == 1 and isinstance(e.ops[0], ast.Eq) and isinstance(e.left, ast.Attribute) and isinstance(e.comparators[0], ast.Attribute) and e.left.attr == e.comparators[0].attr == "parallel"
+                not_sub = lambda e: isinstance(e, ast.UnaryOp) and isinstance(e.op, ast.Not) and isinstance(e.operand, ast.Attribute) and e.operand.attr == "subcircuit"
+                a, b = _positive_conjunct(st.test, same_kind), _positive_conjunct(st.test, not_sub)
+                if a and b:
+                    rep.ok(rule, cons, "same kind and not a subcircuit, both required", f"{m.path}:{st.lineno}")
+                elif "parallel" not in ast.unparse(st.test) or "subcircuit" not in ast.unparse(st.test):
+                    rep.undecided(rule, cons, f"`{ast.unparse(st.test)[:80]}` (see the rules on the splice guard)", f"{m.path}:{st.lineno}")
+                else:
+                    rep.violation(rule, cons, f"`{ast.unparse(st.test)[:110]}`: {'the kind test' if not a else 'the subcircuit test'} is only one alternative of the splice condition, so some block of the other kind is dissolved into its parent -- a parallel block that stands alone in a sequential macro body becomes sequential (its overlap is no longer refused) or a sequential one becomes parallel", f"{m.path}:{st.lineno}", witness="macro pair x y { < Px x | Rz y 0.5 > }; pair r[0] r[0]")
+        if not found:
+            rep.undecided(rule, cons, "no splice", m.loc())
+
+
+def unchanged_by_identity(ctx, rep, rule):
+    ix = ctx.ix
+    rep.rule(rule, "a rebuilding visitor never decides that a node is unchanged by comparing a visited child with the original by `==`: statement equality ignores definitions, so a child whose calls were relinked equals the old one", floor=0)
+    n = 0
+    for q, cls in ix.classes.items():
+        if not (q.startswith("jaqalpaq.core.algorithm.") or q.startswith("jaqalpaq.core.circuitbuilder.")):
+            continue
+        for mn, m in cls.methods.items():
+            if not mn.startswith("visit_") or len(m.params) < 2:
+                continue
+            node = m.params[1]
+            visited = set()
+            for a in ast.walk(m.node):
+                if isinstance(a, ast.Assign) and any(isinstance(c, ast.Call) and isinstance(c.func, ast.Attribute) and c.func.attr == "visit" for c in ast.walk(a.value)):
+                    for t in a.targets:
+                        for x in ast.walk(t):
+                            if isinstance(x, ast.Name):
+                                visited.add(x.id)
+            for c in ast.walk(m.node):
+                if isinstance(c, ast.Compare) and len(c.ops) == 1 and isinstance(c.ops[0], (ast.Eq, ast.NotEq)):
+                    sides = [c.left, c.comparators[0]]
+                    raw = [s for s in sides if any(isinstance(x, ast.Name) and x.id == node for x in ast.walk(s)) and isinstance(s, (ast.Attribute, ast.Name))]
+                    new = [s for s in sides if (isinstance(s, ast.Name) and s.id in visited) or any(isinstance(x, ast.Call) and isinstance(x.func, ast.Attribute) and x.func.attr == "visit" for x in ast.walk(s))]
+                    if raw and new and raw[0] is not new[0]:
+                        n += 1
+                        rep.violation(rule, construct_of(m, "unchanged-test"), f"`{ast.unparse(c)}` decides by structural equality whether `{node}` changed: a body in which only the definitions behind the calls were replaced equals the old one, so the old node -- still linked to the unexpanded macros -- is kept (a subcircuit block survives behind a call, or the analysis follows a stale body)", f"{m.path}:{c.lineno}", witness="macro inner a { subcircuit { Px a } }; macro outer a { inner a }; outer q[0]")
+    if n == 0:
+        rep.ok(rule, "core:rebuilding-visitors:unchanged-test", "no visitor compares a visited child with the original by ==")
+
+
+_add("C08", superseded_count_is_snapshot, "C08.22")
+_add("C12", superseded_count_is_snapshot, "C12.10")
+_add("C13", parallel_refusal_order_free, "C13.26")
+_add("C04", splice_kind_is_conjunct, "C04.14")
+_add("C13", splice_kind_is_conjunct, "C13.27")
+_add("C09", unchanged_by_identity, "C09.16")
+_add("C13", unchanged_by_identity, "C13.28")
+
+
+# ---------------------------------------------------------------- C16: every import after an eviction is rolled back
+
+def imports_after_eviction_guarded(ctx, rep, rule):
+    from ..cfg import CFG
+    ix = ctx.ix
+    f = _func(ix, "jaqalpaq._import.jaqal_import")
+    rep.rule(rule, "in jaqal_import every call that can fail while importing (import_module, reload, the relative loader) and is reachable from the eviction of the old module sits in a try whose re-raising handler puts the evicted entries back: the second stage (the jaqal_gates submodule) like the first", floor=2)
+    cfg = CFG(f.node.body)
+    stmts = list(iter_stmts(f.body))
+    is_sm = lambda e: isinstance(e, ast.Attribute) and e.attr == "modules" and isinstance(e.value, ast.Name) and e.value.id == "sys"
+    ev_stmts = [st for st in stmts if not isinstance(st, (ast.If, ast.For, ast.While, ast.Try, ast.With)) and any(isinstance(c, ast.Call) and isinstance(c.func, ast.Attribute) and c.func.attr == "pop" and is_sm(c.func.value) for c in ast.walk(st))]
+    if not ev_stmts:
+        rep.ok(rule, construct_of(f, "after-eviction"), "nothing is evicted", f.loc())
+        return
+    reach = set()
+    for st in ev_stmts:
+        n = cfg.node(st)
+        if n is not None:
+            reach |= cfg.reachable_from(n)
+    tries = [t for t in ast.walk(f.node) if isinstance(t, ast.Try)]
+
+    def restoring(t):
+        for h in t.handlers:
+            reraises = any(isinstance(x, ast.Raise) and x.exc is None for b in h.body for x in ast.walk(b))
+            puts = any(isinstance(c, ast.Call) and isinstance(c.func, ast.Attribute) and c.func.attr in ("update", "setdefault") and is_sm(c.func.value) and "evicted" in ast.unparse(h) for b in h.body for c in ast.walk(b))
+            broad = h.type is None or ast.unparse(h.type) in ("BaseException", "Exception")
+            if reraises and puts and broad:
+                return True
+        return False
+    n = 0
+    for st in stmts:
+        if isinstance(st, (ast.If, ast.For, ast.While, ast.Try, ast.With)):
+            continue
+        for c in ast.walk(st):
+            if not isinstance(c, ast.Call):
+                continue
+            name = ast.unparse(c.func)
+            if not (name in ("importlib.import_module", "importlib.reload", "import_module", "reload") or name.startswith("_jaqal_import")):
+                continue
+            node = cfg.node(st)
+            if node is None or node not in reach:
+                continue
+            n += 1
+            cons = construct_of(f, f"after-eviction:{name}")
+            guarded = any(restoring(t) and any(x is c for b in t.body for x in ast.walk(b)) for t in tries)
+            if guarded:
+                rep.ok(rule, cons, f"`{ast.unparse(c)[:50]}` fails into a handler that restores the evicted modules", f"{f.path}:{c.lineno}")
+            else:
+                rep.violation(rule, cons, f"`{ast.unparse(c)[:60]}` can raise after the old module was evicted, and no handler puts it back: `from .mod usepulses *` against a directory whose `mod` has no jaqal_gates fails and leaves the process with the new, useless `mod` in place of the one that worked (the same text, or `from mod usepulses *`, behaves differently afterwards)", f"{f.path}:{c.lineno}", witness="from .mod usepulses *  (import_path A: ok; import_path B where mod lacks jaqal_gates: fails; A's module is gone)")
+    if n == 0:
+        rep.undecided(rule, construct_of(f, "after-eviction"), "no import call is reachable from the eviction", f.loc())
+
+
+_add("C16", imports_after_eviction_guarded, "C16.32")
